@@ -26,7 +26,7 @@ RULE = ("scenario = generated config file (1..4 servers; args with spaces/quotes
         "absent/int/float/numeric string; extra keys) or a malformed-config class, x entry point {load_config, test_server, run_command} x child "
         "faults (answer latency, chunked answers, junk lines before the answer, one server unstartable); non-trivial = an entry point that "
         "spawns was exercised with a non-default argument/env shape or a fault")
-PROBES = ["repeat_load", "unknown_name_after_valid_one", "run_command_multi_server", "one_server_unstartable", "env_configured", "args_with_spaces_or_unicode", "malformed_config",
+PROBES = ["cli_main_with_decoy_default_config", "repeat_load", "unknown_name_after_valid_one", "run_command_multi_server", "one_server_unstartable", "env_configured", "args_with_spaces_or_unicode", "malformed_config",
           "junk_before_answer", "timeout_numeric_string"]
 TIERS = {"quick": {"runs": 8000, "wall": 45.0}, "thorough": {"runs": 300000, "wall": 560.0}}
 ASSUMPTIONS = [
@@ -82,7 +82,7 @@ def generate(rng: random.Random, tier: str) -> dict:
         if s["name"] in seen:
             s["name"] += f"_{i}"
         seen.add(s["name"])
-    entry = rng.choice(["load_config", "test_server", "run_command", "run_command"])
+    entry = rng.choice(["load_config", "test_server", "run_command", "run_command", "cli_main"])
     malformed = rng.choice([None] * 6 + ["missing_file", "invalid_json", "unknown_server", "no_mcpServers"])
     if entry == "run_command":
         k = rng.randrange(1, n + 1)
@@ -293,11 +293,35 @@ def _execute(scn: dict) -> dict:
             return True
 
         _cmd.__name__ = scn["cmd_name"]
-        with patched((anyio, "run", fake_anyio_run), (os, "system", lambda c: st["os_system"].append(c) or 0)):
+        if entry == "cli_main":
+            # `python -m chuk_mcp --config <path> --server <name>` run from a directory that happens to hold a default config
+            # (same server names, other commands): the explicit --config decides, whatever else is lying around
+            import sys as _sys
+            decoy_dir = os.path.join(d, "cwd")
+            os.makedirs(decoy_dir, exist_ok=True)
+            with open(os.path.join(decoy_dir, "server_config.json"), "w", encoding="utf-8") as f:
+                json.dump({"mcpServers": {nm: {"command": "DECOY-from-default-config", "args": ["--decoy"]} for nm in list(by_name) + ["does-not-exist"]}}, f)
+            old_cwd, old_argv = os.getcwd(), list(_sys.argv)
+            os.chdir(decoy_dir)
+            _sys.argv = ["chuk-mcp", "--config", path, "--server", names[0]]
             try:
-                st["outcome"] = ("return", smod.run_command(_cmd, path, list(names)))
-            except BaseException as e:  # noqa
-                st["outcome"] = ("raise", e)
+                with patched((anyio, "run", fake_anyio_run)):
+                    try:
+                        mainmod.main()
+                        st["outcome"] = ("return", None)
+                    except SystemExit as e:
+                        st["outcome"] = ("return", e.code == 0)
+                    except BaseException as e:  # noqa
+                        st["outcome"] = ("raise", e)
+            finally:
+                os.chdir(old_cwd)
+                _sys.argv = old_argv
+        else:
+            with patched((anyio, "run", fake_anyio_run), (os, "system", lambda c: st["os_system"].append(c) or 0)):
+                try:
+                    st["outcome"] = ("return", smod.run_command(_cmd, path, list(names)))
+                except BaseException as e:  # noqa
+                    st["outcome"] = ("raise", e)
         info = holder.get("info")
         if info is None:
             info = run_sim(lambda sim: anyio.sleep(0), max_steps=100)  # anyio.run never called
@@ -359,7 +383,7 @@ def _execute(scn: dict) -> dict:
     else:
         # entry points that launch: one spawn per configured (valid) server name, argv/env exact, handshake reached
         want = [] if (mal in ("missing_file", "invalid_json", "no_mcpServers")) else [n for n in names if n in by_name]
-        if entry == "test_server" and mal == "unknown_server":
+        if entry in ("test_server", "cli_main") and mal == "unknown_server":
             want = []
         if kind == "raise":
             V("entry-point", f"raised:{type(val).__name__}", f"{entry} raised {val!r:.200}")
@@ -416,7 +440,11 @@ def _execute(scn: dict) -> dict:
                                                                                   f"{len(startable)} configured servers are startable; {hist['outcome']}")
             if not st["os_system"]:
                 pass
-        if entry == "test_server" and not mal and kind == "return":
+        if entry == "cli_main":
+            probe("cli_main_with_decoy_default_config")
+            if mal and kind == "return" and val is not False:
+                V("cli", f"exit-0-on-{mal}", f"the CLI exited successfully although the given --config is unusable ({mal}); {hist['outcome']}")
+        if entry in ("test_server", "cli_main") and not mal and kind == "return":
             s = by_name[names[0]]
             exp_ok = s.get("fault") != "unstartable"
             if bool(val) != exp_ok:
